@@ -1,11 +1,11 @@
 #!/bin/bash
 # Runs every seeded change against its own check and the related ones (each in a private copy of /verif and a
-# scratch worktree of /repo, see tools/try_mutation.sh); writes seeded/MATRIX.txt.   usage: tools/seed_matrix.sh [parallelism]
+# scratch worktree of /repo, see tools/try_mutation.sh); writes seeded/MATRIX.txt.   usage: [OWN_ONLY=1] [MATRIX_OUT=file] tools/seed_matrix.sh [parallelism]   (OWN_ONLY: owning checks only)
 cd /verif
 par="${1:-4}"
 declare -A REL=( [C01]="C01 C04 C05" [C02]="C02 C12" [C03]="C03 C04 C05" [C04]="C04 C03 C01" [C05]="C05 C04" [C06]="C06 C02" [C07]="C07 C03 C06" [C08]="C08" [C09]="C09"
  [C10]="C10 C05" [C11]="C11 C01" [C12]="C12 C02" [C12b]="C12 C04 C08 C01" [C03b]="C03 C12 C01" [C20b]="C20" [C11b]="C11 C03" [C13]="C13 C03" [C14]="C14" [C15]="C15" [C16]="C16 C07" [C17]="C17" [C18]="C18" [C19]="C19 C05" [C20]="C20" )
-out=seeded/MATRIX.txt
+out="${MATRIX_OUT:-seeded/MATRIX.txt}"
 tmp=$(mktemp -d /tmp/matrix.XXXX)
 one() {
   s="$1"; p="$2"
@@ -18,7 +18,7 @@ one() {
   echo "seed=$s check=$p -> $v"
 }
 export -f one
-for s in $(ls seeded | grep '^C'); do grep -q '"obsolete"' seeded/$s/meta.json && continue; b="${s%r3}"; b="${b%r2}"; b="${b%b}"; rel="${REL[$s]:-${REL[$b]}}"; for p in $rel; do echo "$s $p"; done; done \
+for s in $(ls seeded | grep '^C'); do grep -q '"obsolete"' seeded/$s/meta.json && continue; b="${s%r3}"; b="${b%r2}"; b="${b%b}"; rel="${REL[$s]:-${REL[$b]}}"; [ -n "${OWN_ONLY:-}" ] && rel="${rel%% *}"; for p in $rel; do echo "$s $p"; done; done \
   | xargs -P "$par" -L 1 bash -c 'one $0 $1' | tee "$tmp/raw.txt"
 sort "$tmp/raw.txt" > "$out"
 rm -rf "$tmp"
